@@ -22,11 +22,16 @@ type Atom struct {
 	S string
 }
 
-func Int(i int64) Atom    { return Atom{T: 'i', I: i} }
-func Real(f float64) Atom { return Atom{T: 'r', F: f} }
-func Bool(b bool) Atom    { return Atom{T: 'b', B: b} }
-func Str(s string) Atom   { return Atom{T: 's', S: s} }
-func UUID(s string) Atom  { return Atom{T: 'u', S: s} }
+func Int(i int64) Atom { return Atom{T: 'i', I: i} }
+func Real(f float64) Atom {
+	if f == 0 {
+		f = 0 // -0 and +0 are the same real
+	}
+	return Atom{T: 'r', F: f}
+}
+func Bool(b bool) Atom   { return Atom{T: 'b', B: b} }
+func Str(s string) Atom  { return Atom{T: 's', S: s} }
+func UUID(s string) Atom { return Atom{T: 'u', S: s} }
 
 const ZeroUUID = "00000000-0000-0000-0000-000000000000"
 
